@@ -33,6 +33,14 @@ MAIN_EXTRA = r"""
       P("bufA", tohex(pa, a.size()));
       delete[] pa; delete[] pb;
     }
+    if (tok[0] == "R") {
+      int si = std::stoi(tok[1]); std::vector<unsigned char> a = unhex(tok[2]), b = unhex(tok[3]);
+      unsigned char *pa = new unsigned char[a.size()]; if (!a.empty()) std::memcpy(pa, a.data(), a.size());
+      unsigned char *pb = new unsigned char[b.size()]; if (!b.empty()) std::memcpy(pb, b.data(), b.size());
+      pairp_cmd(si, pa, a.size(), pb, b.size(), tok);
+      P("bufA", tohex(pa, a.size()));
+      delete[] pa; delete[] pb;
+    }
     if (tok[0] == "O") {
       // O <struct> <hex> <dstOff> <dstLen> <srcOff> <srcLen>: copy between windows of one allocation
       int si = std::stoi(tok[1]); std::vector<unsigned char> a = unhex(tok[2]);
@@ -58,7 +66,36 @@ def pair_fn(gen, module):
     L.append("    default: break;")
     L.append("  }")
     L.append("}")
+    # R <struct> <hexA> <hexB> <params of A...> <params of B...>: two views of a parameterised structure
+    L.append("static void pairp_cmd(int si, unsigned char *pa, std::size_t na, unsigned char *pb, std::size_t nb, const std::vector<std::string> &tok) {")
+    L.append("  (void)pa; (void)na; (void)pb; (void)nb; (void)tok;")
+    L.append("  switch (si) {")
+    for i, st in enumerate(gen.top_structs()):
+        if not st.params:
+            continue
+        k = len(st.params)
+        mk = "%s::Make%sView" % (D.cpp_ns(module), st.name)
+        aa = "".join(gen.param_cast(pt, 4 + j) + ", " for j, (pn, pt) in enumerate(st.params))
+        ab = "".join(gen.param_cast(pt, 4 + k + j) + ", " for j, (pn, pt) in enumerate(st.params))
+        L.append("    case %d: { auto a = %s(%spa, na); auto b = %s(%spb, nb);" % (i, mk, aa, mk, ab))
+        L.append("      bool oa = a.Ok(), ob = b.Ok(); P(\"okA\", oa); P(\"okB\", ob); if (oa && ob) { P(\"eqAB\", a.Equals(b)); P(\"eqBA\", b.Equals(a)); }")
+        L.append("      break; }")
+    L.append("    default: break;")
+    L.append("  }")
+    L.append("}")
     return "\n".join(L)
+
+
+def ok_buffers_params(rnd, I, s, params, maxlen, want=3, tries=60):
+    out = []
+    for _ in range(tries):
+        n = maxlen + rnd.choice([0, 0, 1])
+        b = bytes(rnd.choice([0, 0, 0, 1, 2, 3]) for _ in range(n)) if rnd.random() < 0.6 else bytes(C1.byte_pool(rnd) for _ in range(n))
+        if RI.StructView(I, s, params, b).ok():
+            out.append(b)
+            if len(out) >= want:
+                break
+    return out
 
 
 def ok_buffers(rnd, I, s, maxlen, want=6, tries=120):
@@ -100,6 +137,28 @@ def build_case(seed):
     script, expect = [], []
     for si, s in enumerate(gen.top_structs()):
         if s.params:
+            # two views of a parameterised structure, built with the same or with different arguments
+            maxlen = C1.struct_maxlen(s)
+            names = [pn for pn, _ in s.params]
+            assignments = [C1.param_values(rnd, s) for _ in range(3)]
+            for pva in assignments:
+                for pvb in assignments:
+                    da, db = dict(zip(names, pva)), dict(zip(names, pvb))
+                    for a in ok_buffers_params(rnd, I, s, da, maxlen, want=2):
+                        for b in [a] + ok_buffers_params(rnd, I, s, db, maxlen, want=1):
+                            va, vb = RI.StructView(I, s, da, a), RI.StructView(I, s, db, b)
+                            oa, ob = va.ok(), vb.ok()
+                            exp = {"okA": oa, "okB": ob, "bufA": a}
+                            if oa and ob:
+                                e1, e2 = RI.views_equal(va, vb), RI.views_equal(vb, va)
+                                if pva == pvb or not e1:
+                                    exp["eqAB"] = e1
+                                if pva == pvb or not e2:
+                                    exp["eqBA"] = e2
+                                # views that differ in nothing but an argument: the property speaks of fields
+                                # only; what the generated code does with the arguments is not compared
+                            script.append("R %d %s %s %s %s" % (si, a.hex() or "-", b.hex() or "-", " ".join(str(x) for x in pva), " ".join(str(x) for x in pvb)))
+                            expect.append({"cmd": "R", "struct": s.name, "kind": "same-arguments" if pva == pvb else "different-arguments", "a": a, "b": b, "exp": exp, "nontrivial": bool(oa and ob and pva != pvb)})
             continue
         maxlen = C1.struct_maxlen(s)
         oks = ok_buffers(rnd, I, s, maxlen)
